@@ -698,7 +698,7 @@ def generate(unit_dir, features=("parallel", "shred-derive"), mode="T", active=N
     skipped = set()
     skipped |= set(i["key"] for i in unit["items"] if "key" in i and "cfg" in i and not all((c in features) for c in i["cfg"]))
     unused = set(contracts) - used - skipped - missing_skipped
-    if unused:
+    if unused and not unit.get("allow_unused_contracts"):
         raise Unsupported("contracts without item: %s" % sorted(unused))
     for f in unit.get("lib", []):
         txt = open(os.path.join(unit_dir, f)).read()
